@@ -41,6 +41,14 @@ CHECKS = {
                 text="in every reachable content of two tables, every batch write of 1..3 (4) requests over the slots and every batch get over every subset of slots equals the item-by-item decomposition computed by the reference model",
                 note="3-4 (table,key) slots, 3 actions per slot, sizes 25/26 for the service limit; v1 has no BatchGetItem (finding)",
                 ref="DESIGN.md 3/C19"),
+    "C02": dict(engine="E1", technique=E1M,
+                text="in every table content over the item universe (all subsets, reached by closure) every Query and Scan of the exhaustive menu returns exactly the reference selection in sort-key order (ties free), on base table, GSI and LSI, both directions, both SDK adapters",
+                note="item universes of 5 (quick) / 7 (thorough) items per configuration, value alphabets drawn from the universe plus absent values; number sort keys are ordered as text (recorded finding)",
+                ref="DESIGN.md 3/C02"),
+    "C04": dict(engine="E1", technique=E1M,
+                text="in every state of the C02 space, for every query of the menu and every Limit from 1 to |result|+1 the concatenated pages equal the unpaginated result of the same client, within the page budget; and for every page boundary of every walk of the reduced menu, deleting the boundary item does not lose any remaining item",
+                note="same universes as C02; the boundary-deletion pass rebuilds a fresh client per boundary (replay of the history)",
+                ref="DESIGN.md 3/C04"),
 }
 
 PENDING = {}
